@@ -122,7 +122,17 @@ def shared_escapes(prog: Program) -> tuple[list[SharedEscape], int]:
                     continue
                 for c2 in [ci] + list(prog.subclasses(ci, strict=True)):
                     for m in c2.methods.values():
+                        # locals bound to the class-level object (`parts = self._parts`) are the same object
+                        al = {t.id for n in walk_no_nested(m.node) if isinstance(n, (ast.Assign, ast.AnnAssign)) and n.value is not None and norm(n.value) in (f"self.{tgt.id}", f"cls.{tgt.id}", f"{ci.name}.{tgt.id}")
+                              for t in (n.targets if isinstance(n, ast.Assign) else [n.target]) if isinstance(t, ast.Name)}
                         for n in walk_no_nested(m.node):
+                            if isinstance(n, ast.Call) and isinstance(n.func, ast.Attribute) and isinstance(n.func.value, ast.Name) and n.func.value.id in al \
+                                    and n.func.attr in ("append", "extend", "insert", "add", "update", "setdefault", "pop", "remove", "clear", "sort", "fill"):
+                                out.append(SharedEscape(f"{ci.name}.{tgt.id}", k, f"{mod.relpath}:{st.lineno}", f"changed in place through the local `{n.func.value.id}` bound to `self.{tgt.id}`", f"{mod.relpath}:{n.lineno}", m.qualname))
+                            if isinstance(n, (ast.Assign, ast.AugAssign)):
+                                tg_ = n.targets if isinstance(n, ast.Assign) else [n.target]
+                                if any((isinstance(t, ast.Subscript) and isinstance(t.value, ast.Name) and t.value.id in al) or (isinstance(n, ast.AugAssign) and isinstance(t, ast.Name) and t.id in al) for t in tg_):
+                                    out.append(SharedEscape(f"{ci.name}.{tgt.id}", k, f"{mod.relpath}:{st.lineno}", f"changed in place through a local bound to `self.{tgt.id}`", f"{mod.relpath}:{n.lineno}", m.qualname))
                             tgts = n.targets if isinstance(n, ast.Assign) else ([n.target] if isinstance(n, ast.AugAssign) else [])
                             hit = any(isinstance(t, ast.Subscript) and norm(t.value) == f"self.{tgt.id}" for t in tgts) or (isinstance(n, ast.AugAssign) and norm(n.target) == f"self.{tgt.id}")
                             if isinstance(n, ast.Call) and isinstance(n.func, ast.Attribute) and norm(n.func.value) == f"self.{tgt.id}" and n.func.attr in ("append", "extend", "insert", "add", "update", "setdefault", "pop", "remove", "clear", "sort", "fill"):
